@@ -483,3 +483,83 @@ def expand_self(data):
         elif isinstance(x, list):
             stack.extend(v for v in x if isinstance(v, (dict, list)))
     return n
+
+
+# ---- helpers extracted since the reference tree are read in place ----------------------------------------------------------------------
+def inline_new_helpers(data, known_fns):
+    """A private free function that the reference tree does not have, that is called from exactly one place in the crate, is not
+    recursive and has no `return` inside, is a piece of its caller that was given a name (`extract function`).  Its call is replaced
+    by a block that binds the parameters to the arguments (all at once) and holds the helper's body; for a helper returning
+    `Result`, called as `h(..)?`, whose body ends in `Ok(v)`, the `?` on the call is dropped and the block's value is `v` (the inner
+    `?`s keep propagating, now from the caller).  The helper's own item is dropped from the trees the rules read.  Returns the list
+    of inlined function names (engine M still has them as functions: see cross_check_sm)."""
+    fns = {}     # simple name -> list of (file, items list, index, node)
+    for path, content in data.items():
+        if path.endswith("build.rs"):
+            continue
+        for i, it in enumerate(content.get("items", [])):
+            if it.get("k") == "Fn" and not it.get("cfg_test"):
+                fns.setdefault(it["name"], []).append((path, content["items"], it))
+    module = lambda path: os.path.splitext(os.path.basename(path))[0]
+    cands = {}
+    for name, lst in fns.items():
+        if len(lst) != 1:
+            continue
+        path, items, node = lst[0]
+        if f"{module(path)}::{name}" in known_fns or (node.get("vis") or "").startswith("pub") and "crate" not in (node.get("vis") or ""):
+            continue
+        if node.get("generics") and "<" in node["generics"] and "'" not in node["generics"]:
+            continue  # generic helpers (bounds on closures etc.) are left alone
+        if _has_return(node["body"]) or any(p.get("name") in (None, "self") or (p.get("pat") or {}).get("k") not in ("PIdent",) for p in node["params"]):
+            continue
+        cands[name] = (path, items, node)
+    if not cands:
+        return []
+    # call sites, with parents
+    sites = {n: [] for n in cands}
+    stack = [(data, None, None)]
+    while stack:
+        x, par, key = stack.pop()
+        if isinstance(x, dict):
+            if x.get("k") == "Call" and x["func"].get("k") == "Path":
+                nm = x["func"]["path"].split("::")[-1]
+                if nm in sites and x["func"]["path"] in (nm, "self::" + nm, "crate::" + nm, "Self::" + nm):
+                    sites[nm].append((x, par))
+            elif x.get("k") == "Path" and isinstance(x.get("path"), str) and x["path"].split("::")[-1] in sites and not (par is not None and par.get("k") == "Call" and par.get("func") is x):
+                sites[x["path"].split("::")[-1]].append((None, par))  # used as a value (`.map(helper)`): not inlinable
+            for k2, v in x.items():
+                if isinstance(v, (dict, list)):
+                    stack.append((v, x, k2))
+        elif isinstance(x, list):
+            for v in x:
+                if isinstance(v, (dict, list)):
+                    stack.append((v, par, key))
+    done = []
+    for name, (path, items, node) in cands.items():
+        ss = sites[name]
+        if len(ss) != 1 or ss[0][0] is None:
+            continue
+        call, parent = ss[0]
+        # not recursive: the single call is outside the helper
+        inside = any(y is call for y in A.walk(node["body"]))
+        if inside or len(call["args"]) != len(node["params"]):
+            continue
+        pos = {k: call[k] for k in ("l", "c", "el", "ec")}
+        pats = [{"k": "PIdent", "name": p["name"], "mut": bool((p.get("pat") or {}).get("mut")), "by_ref": False, "sub": None, **pos} for p in node["params"]]
+        body = node["body"]
+        stmts = []
+        if pats:
+            stmts.append({"k": "Local", "pat": {"k": "PTuple", "elems": pats, **pos}, "init": {"k": "Tuple", "elems": list(call["args"]), **pos}, "else": None, **pos})
+        stmts.append({"k": "ExprStmt", "expr": body, "semi": False, **pos})
+        target = call
+        if parent is not None and parent.get("k") == "Try" and parent.get("expr") is call and body.get("k") == "Block" and body.get("stmts"):
+            tail = body["stmts"][-1]
+            te = tail.get("expr") if tail.get("k") == "ExprStmt" and not tail.get("semi") else None
+            if te is not None and te.get("k") == "Call" and te["func"].get("k") == "Path" and te["func"]["path"] == "Ok" and len(te["args"]) == 1:
+                tail["expr"] = te["args"][0]
+                target = parent
+        target.clear()
+        target.update({"k": "Block", "stmts": stmts, **pos})
+        items.remove(node)
+        done.append(name)
+    return done
